@@ -80,11 +80,11 @@ theorem floor_eq (x : Nat) (hx : x < two64) : floorJS x = floorGo x := by
     · simp only [hbig, if_false]
       have hlt : expo x < 1075 := by omega
       rcases hs with hs | hs
-      · simp only [hs, show ((0:Nat) == 1) = false from rfl, Bool.false_eq_true, if_false]
+      · simp only [hs, show ((0:Nat) == 1) = false from rfl, show ((0:Nat) == 0) = true from rfl, Bool.false_eq_true, if_false, if_true]
         by_cases hsm : expo x < 1023
-        · rw [truncMag_small x hsm, truncGo_small x hsm hsp2, hs]; rfl
+        · rw [truncMag_small x hsm, truncGo_small x hsm hsp2, hs]; simp [encodeNat]
         · rw [encode_trunc x hx (by omega) hlt, hs]; omega
-      · simp only [hs, beq_self_eq_true, if_true]
+      · simp only [hs, beq_self_eq_true, if_true, show ((1:Nat) == 0) = false from rfl, Bool.false_eq_true, if_false]
         by_cases hf : hasFrac x = true
         · simp only [hf, if_true]
         · have hf' : hasFrac x = false := by simpa using hf
@@ -94,6 +94,7 @@ theorem floor_eq (x : Nat) (hx : x < two64) : floorJS x = floorGo x := by
           have hnl := neg_lt x hx
           rw [encode_trunc (neg x) hnl (by rw [expo_neg x hx]; omega) (by rw [expo_neg x hx]; exact hlt),
             truncMag_neg x hx, sign_neg x hx, hs]
+          omega
 
 /-- ECMAScript `Math.ceil` = Go's `Ceil` (= -Floor(-x)), for every bit pattern -/
 theorem ceil_eq (x : Nat) (hx : x < two64) : ceilJS x = ceilGo x := by
